@@ -37,7 +37,7 @@ CHECKS = {
         level="model_checking",
         engine="E3-hist",
         technique="explicit-state search over operation histories of the real Environment (complete history tree + BFS with deduplication on a plain-map reference model and differential merge checks), and stateless preemption-bounded DFS over thread schedules of concurrent renders on a source-swapped copy of minijinja + memo-map",
-        text="An alphabet of 33 operations over two template names (add_template borrowed / owned with 7 sources: plain, using a global+filter+test, not compiling, failing at run time, including b, extending b, rendering b from a function on the same thread; remove_template, clear_templates, set_loader with two loaders serving different sources, add/remove filter, test and global, clone and continue on the clone, render, get of a missing name) is explored as the complete unpruned history tree to depth 3 (quick, 3.6e4 histories) / 4 (thorough, 1.2e6) and by breadth-first search over reference-model states (borrowed map, owned map incl. templates memoised from the loader with the source seen at first request, loader, registries) to depth 6/8 with deduplication; at every merge the environment reached by the new history is compared with the one reached by the stored representative. Every transition calls the real API. At every step of every history the observations (get_template + render of each name, twice, on a clone) must equal those of a fresh environment built from the model's contents, an add that fails to compile must leave all observations unchanged, and the same render must give the same result twice. Schedules half: tools/gen_swapped.py copies /repo/minijinja and the registry's memo-map with std::sync and thread_local! redirected to shuttle (locks, atomics, per-task thread-locals are scheduling points; Arc and OnceLock stay std), and a depth-first explorer enumerates every schedule with at most k preemptions, k iterated from 0, of 2-3 threads doing 1-2 operations each on one shared Arc<Environment> (render a loader-backed template that includes another, render the included one, read the stored source, render a borrowed template with loop+macro+namespace, a failing render, a render from a serde context with safe/undefined values, a render using tojson), the loader answering with a different source every time it is asked: 113 configurations, 1.5e5 schedules quick (bound 3 for pairs, 2 otherwise); all 2-operation pairs and all 3-thread triples thorough (bound 5 for pairs, 3 otherwise). Oracle on every execution: each observation equals what the final contents of the environment and the observing render's own context give (one version per loader-backed name for the whole execution, no cross-talk, failing renders fail with their own error), no deadlock; a failing schedule is replayed twice before it is reported.",
+        text="An alphabet of 33 operations over two template names (add_template borrowed / owned with 7 sources: plain, using a global+filter+test, not compiling, failing at run time, including b, extending b, rendering b from a function on the same thread; remove_template, clear_templates, set_loader with two loaders serving different sources, add/remove filter, test and global, clone and continue on the clone, render, get of a missing name) is explored as the complete unpruned history tree to depth 3 (quick, 3.6e4 histories) / 4 (thorough, 1.2e6) and by breadth-first search over reference-model states (borrowed map, owned map incl. templates memoised from the loader with the source seen at first request, loader, registries) to depth 6/8 with deduplication; at every merge the environment reached by the new history is compared with the one reached by the stored representative. Every transition calls the real API. At every step of every history the observations (get_template + render of each name, twice, on a clone; for a failing render the whole report: kind, template, line, range, detail) must equal those of a fresh environment built from the model's contents, an add that fails to compile must leave all observations unchanged, and the same render must give the same result twice. Histories shorter than the tree depth run from their first operation on an OS thread of their own with the reference environment built on another fresh thread, because the engine keeps per-thread scratch state. Schedules half: tools/gen_swapped.py copies /repo/minijinja and the registry's memo-map with std::sync and thread_local! redirected to shuttle (locks, atomics, per-task thread-locals are scheduling points; Arc and OnceLock stay std), and a depth-first explorer enumerates every schedule with at most k preemptions, k iterated from 0, of 2-3 threads doing 1-2 operations each on one shared Arc<Environment> (render a loader-backed template that includes another, render the included one, read the stored source, render a borrowed template with loop+macro+namespace, a failing render, a render from a serde context with safe/undefined values, a render using tojson), the loader answering with a different source every time it is asked: 113 configurations, 1.5e5 schedules quick (bound 3 for pairs, 2 otherwise); all 2-operation pairs and all 3-thread triples thorough (bound 5 for pairs, 3 otherwise). Oracle on every execution: each observation equals what the final contents of the environment and the observing render's own context give (one version per loader-backed name for the whole execution, no cross-talk, failing renders fail with their own error), no deadlock; a failing schedule is replayed twice before it is reported.",
         note="Observation in the histories half runs on a clone so that it does not populate the loader cache. Schedules half: shuttle treats atomics as sequentially consistent and does not interleave Arc reference counting; configurations run in worker processes because the swapped crate has shuttle atomics in statics. If the swapped copy of a modified tree does not build, the check says so on stderr and the verdict is that of the histories half alone.",
         design_ref="2/C15",
     ),
@@ -45,7 +45,7 @@ CHECKS = {
         level="model_checking",
         engine="E4-sched",
         technique="stateless preemption-bounded DFS over all thread schedules of the real auto-reloader code (mechanically source-swapped onto shuttle's scheduled Mutex), bound iterated 0..k",
-        text="The real minijinja-autoreload source is compiled into the harness with std::sync replaced by shuttle::sync by the build script, so every Mutex operation of the code under test is a scheduling point, however the source is edited. A depth-first explorer of my own (Scheduler implementation on shuttle's runtime) enumerates every schedule with at most k preemptions, k iterated from 0: quick = 30 configurations (1-2 requesters x 1-2 acquirers, one acquirer acquiring twice; rebuild and fast-reload mode; plain / request issued from inside the creator / freshness callback) with 3/2/1 preemptions for 2/3/4 threads, 5.1e5 complete schedules; thorough = the same at 3 preemptions plus 3 requesters/acquirers at 2 preemptions, 1e8+ schedules. Oracle on every execution: a requester bumps a version then calls request_reload() then publishes that it returned; every acquire_env() started after that must hand out an environment stamped (creator entry, or template load time in fast mode) with at least that version; the environment identity and stamp do not change while a guard is held; creator calls <= 1 + requests (+ creator-issued requests + freshness-callback trues), exactly 1 in fast mode; no deadlock (shuttle reports it). A failing schedule is replayed twice for determinism and written as a task-id list; divergence while replaying a prefix is a machinery error.",
+        text="The real minijinja-autoreload source is compiled into the harness with std::sync replaced by shuttle::sync by the build script, so every Mutex operation of the code under test is a scheduling point, however the source is edited. A depth-first explorer of my own (Scheduler implementation on shuttle's runtime) enumerates every schedule with at most k preemptions, k iterated from 0: quick = 60 configurations (1-2 requesters x 1-2 acquirers, one acquirer acquiring twice; rebuild and fast-reload mode; plain / request issued from inside the creator / freshness callback; starting from an empty cache or from an environment the main thread acquired before) with 3/2/1 preemptions for 2/3/4 threads, 1.0e6 complete schedules; thorough = the same at 3 preemptions plus 3 requesters/acquirers at 2 preemptions, 1e8+ schedules. Oracle on every execution: a requester bumps a version then calls request_reload() then publishes that it returned; every acquire_env() started after that must hand out an environment stamped (creator entry, or template load time in fast mode) with at least that version; the environment identity and stamp do not change while a guard is held; creator calls <= 1 + requests (+ creator-issued requests + freshness-callback trues), exactly 1 in fast mode; no deadlock (shuttle reports it). A failing schedule is replayed twice for determinism and written as a task-id list; divergence while replaying a prefix is a machinery error.",
         note="shuttle treats every atomic as sequentially consistent and does not interleave Arc/Weak reference counting. The notify file-system watcher thread is real OS nondeterminism and is not driven; its callback uses the same flag protocol as request_reload. Creator failure is outside the quantifier.",
         design_ref="2/C20",
     ),
